@@ -34,7 +34,7 @@ class _Conn(_StubConn):
         super().__init__(log)
         self.lost = []
 
-    def _connection_lost(self, exc):
+    def _connection_lost(self, exc, *args):
         self.lost.append(type(exc).__name__)
 
 
@@ -245,7 +245,7 @@ def case_corrupt(p):
                 proto.result_cbs = []
                 tr = vloop.MemTransport(loop, proto, att["fut"].result())
                 loop.run_until_idle()
-                nreq = len([s for s in sent if s[0] == "HTTP"])
+                nreq = len([s for s in sent if s[0] == "HTTP"]) if not p.get("no_request") else 0
                 tasks = [loop.create_task(proto.send_bytes(b"GET /x HTTP/1.1\r\n\r\n")) for _ in range(nreq)]
                 loop.run_until_idle()
                 pos = 0
@@ -282,8 +282,18 @@ def case_corrupt(p):
                 rest = results[len(delivered):]
                 if any(r != "AccessoryDisconnectedError" for r in rest):
                     out.append(("corrupt:pending-request-not-failed-with-disconnection-error", det))
-                if not tr.is_closing():
-                    out.append(("corrupt:session-not-ended", det))
+                # does the hit frame complete with the bytes delivered? (a flipped length prefix may make it longer than the stream)
+                start = bounds[hit][0]
+                declared = int.from_bytes(bad[start : start + 2], "little")
+                completes = start + 2 + declared + 16 <= len(bad)
+                if not p.get("no_request"):
+                    if not tr.is_closing():
+                        out.append(("corrupt:session-not-ended", det))
+                elif completes:
+                    if not tr.is_closing():
+                        out.append(("corrupt:session-not-ended:no-request-pending", det))
+                    if not proto._vt_conn.lost:
+                        out.append(("corrupt:connection-owner-not-told-about-lost-session:no-request-pending", det))
                 for t in tasks:
                     t.cancel()
                 loop.run_until_idle()
@@ -326,7 +336,47 @@ def case_e2e(p):
     return out
 
 
-CASES = {"outbound": case_outbound, "graph": case_graph, "cuts": case_cuts, "corrupt": case_corrupt, "e2e": case_e2e}
+def case_e2e_corrupt(p):
+    """Real IpPairing over the simulated network, no request in flight: a corrupted (event) frame must end the session -
+    the controller closes the connection and the pairing no longer reports connected; nothing of the frame reaches listeners."""
+    from vt.env.iprig import IpRig, std_handler
+
+    out = []
+    n = 0
+    for bit in p["bits"]:
+        rig = IpRig(seed=p.get("seed", 0))
+        try:
+            rig.acc.handler = std_handler()
+            conn = rig.connect()
+            notes = []
+            rig.pairing.dispatcher_connect(lambda ev: notes.append(ev))
+            rig.net.auto = lambda att: ("refuse",)  # no reconnect: observe the old connection only
+            wire = bytearray(conn.session.event(b'{"characteristics":[{"aid":1,"iid":9,"value":true}]}'))
+            if bit // 8 >= len(wire):
+                continue
+            wire[bit // 8] ^= 1 << (bit % 8)
+            declared = int.from_bytes(wire[:2], "little")
+            completes = 2 + declared + 16 <= len(wire)
+            conn.send(bytes(wire))
+            rig.loop.run_until_idle()
+            n += 1
+            det = {"bit": bit, "frame_completes": completes}
+            if notes:
+                out.append(("e2e-corrupt:unauthentic-frame-reached-listeners", det))
+            if completes:
+                if conn.client_open:
+                    out.append(("e2e-corrupt:controller-kept-the-connection-open-after-unauthentic-frame", det))
+                if rig.pairing.is_connected:
+                    out.append(("e2e-corrupt:pairing-still-reports-connected-after-unauthentic-frame", det))
+        finally:
+            rig.close()
+        if out:
+            break
+    p["_stats"] = (0, n, 0)
+    return out
+
+
+CASES = {"e2e_corrupt": case_e2e_corrupt, "outbound": case_outbound, "graph": case_graph, "cuts": case_cuts, "corrupt": case_corrupt, "e2e": case_e2e}
 
 
 def _work(item, seed, tier):
@@ -336,7 +386,7 @@ def _work(item, seed, tier):
     nodes, trans, n = p.pop("_stats", (0, 0, 0))
     acc.states += nodes
     acc.transitions += trans
-    mult = len(p["lengths"]) if name == "outbound" else (len(p["bits"]) * len(p["cutsets"]) if name == "corrupt" else 1)
+    mult = len(p["lengths"]) if name == "outbound" else (len(p["bits"]) * len(p["cutsets"]) if name == "corrupt" else (len(p["bits"]) if name == "e2e_corrupt" else 1))
     acc.extra[f"{name}_executions"] += mult
     acc.case(key=(name, core.jsonable(p)), outcome=f"{name}:{'ok' if not v else v[0][0]}", sample={"case": name, "params": {k: (v_ if not isinstance(v_, list) or len(v_) < 12 else v_[:12] + ['...']) for k, v_ in p.items()}}, symbols=(name,))
     acc.traces += mult
@@ -377,6 +427,16 @@ def run(ctx):
     allcuts = [()] + [(c,) for c in range(1, len(stream), 1 if not quick else 9)]
     for i in range(0, len(bits), 16 if not quick else 8):
         work.append(("corrupt", {"msgs": cmsgs, "sizes": csizes, "bits": bits[i : i + (16 if not quick else 8)], "cutsets": allcuts}))
+    # corruption while NO request is in flight (unsolicited events only): nothing but the loop's fatal-error path can end the session
+    emsgs, esizes = [MSG_EVENT, MSG_EVENT], [50]
+    estream, _, _ = build_stream(emsgs, esizes)
+    ebits = list(range(len(estream) * 8)) if not quick else [b * 8 + ((b + ctx.seed) % 8) for b in range(len(estream))]
+    ecuts = [()] + [(c,) for c in range(1, len(estream), 3 if not quick else 17)]
+    for i in range(0, len(ebits), 16):
+        work.append(("corrupt", {"msgs": emsgs, "sizes": esizes, "bits": ebits[i : i + 16], "cutsets": ecuts, "no_request": True}))
+    ebits2 = list(range(180 * 8)) if not quick else [b * 8 + ((b + ctx.seed) % 8) for b in range(180)]
+    for i in range(0, len(ebits2), 12):
+        work.append(("e2e_corrupt", {"bits": ebits2[i : i + 12]}))
     # end to end
     for sizes in ([1024], [1], [1023], [7, 1024, 3]):
         work.append(("e2e", {"sizes": sizes, "n": 2500 if sizes != [1] else 300}))
